@@ -552,6 +552,19 @@ impl<S: Sut> World<S> {
                     }
                 }
             } else {
+                if cfg.has(mon::EQ) {
+                    // `==` is the convergence criterion: it must be symmetric and must not equate states
+                    // that read differently (a too-permissive `==` would make every convergence check vacuous)
+                    if let Some((k2, e2)) = self.seen.iter().find(|(_, e2)| e2.obs.reads != obs.reads) {
+                        self.st.ev("eq_sound");
+                        let ab = std::panic::catch_unwind(std::panic::AssertUnwindSafe(|| e2.state == self.reps[r])).unwrap_or(false);
+                        let ba = std::panic::catch_unwind(std::panic::AssertUnwindSafe(|| self.reps[r] == e2.state)).unwrap_or(false);
+                        if ab || ba {
+                            let d = format!("`==` holds (a==b: {ab}, b==a: {ba}) between states that read differently:\n   r{r} K={k:#x}: {}\n   K={:#x}: {}", dump(&self.reps[r]).show(), k2, dump(&e2.state).show());
+                            return Err(self.v("eqsound", k, d));
+                        }
+                    }
+                }
                 self.st.cuts += 1;
                 self.seen.insert(k, Seen { obs: obs.clone(), state: self.reps[r].clone(), step, order_hash: oh, orders: 1 });
             }
